@@ -48,12 +48,12 @@ func (x *inputXform) prefixList() []string {
 	return out
 }
 
-func wholeInput(v ssa.Value, param *ssa.Parameter, xf *inputXform, seen map[ssa.Value]bool) bool {
-	ok := wholeInput1(v, param, xf, seen, "")
+func wholeInput(p *Prog, v ssa.Value, param *ssa.Parameter, xf *inputXform, seen map[ssa.Value]bool) bool {
+	ok := wholeInput1(p, v, param, xf, seen, "")
 	return ok
 }
 
-func wholeInput1(v ssa.Value, param *ssa.Parameter, xf *inputXform, seen map[ssa.Value]bool, prefix string) bool {
+func wholeInput1(p *Prog, v ssa.Value, param *ssa.Parameter, xf *inputXform, seen map[ssa.Value]bool, prefix string) bool {
 	if _, isPhi := v.(*ssa.Phi); isPhi {
 		if seen[v] {
 			return true
@@ -72,16 +72,32 @@ func wholeInput1(v ssa.Value, param *ssa.Parameter, xf *inputXform, seen map[ssa
 		return false
 	case *ssa.Call:
 		f := x.Call.StaticCallee()
-		if f == nil || !identityOnInput[f.String()] {
+		if f == nil {
+			return false
+		}
+		if !identityOnInput[f.String()] {
+			// a repo helper string -> string every result of which is its own parameter up to the same
+			// operations (a clean-up helper)
+			if p != nil && p.IsRepoFn(f) && f.Blocks != nil && len(f.Params) == 1 && isStringType(f.Params[0].Type()) && f.Signature.Results().Len() == 1 && isStringType(f.Signature.Results().At(0).Type()) && len(seen) < 64 {
+				for _, b := range f.Blocks {
+					if ret, ok := b.Instrs[len(b.Instrs)-1].(*ssa.Return); ok {
+						if !wholeInput1(p, ret.Results[0], f.Params[0], xf, seen, prefix) {
+							return false
+						}
+					}
+				}
+				// the helper's parameter stands for the argument
+				return wholeInput1(p, x.Call.Args[0], param, xf, seen, prefix)
+			}
 			return false
 		}
 		if f.String() == "strings.ToLower" || f.String() == "strings.ToUpper" {
 			xf.fold = true
 		}
-		return wholeInput1(x.Call.Args[0], param, xf, seen, prefix)
+		return wholeInput1(p, x.Call.Args[0], param, xf, seen, prefix)
 	case *ssa.Phi:
 		for _, e := range x.Edges {
-			if !wholeInput1(e, param, xf, seen, prefix) {
+			if !wholeInput1(p, e, param, xf, seen, prefix) {
 				return false
 			}
 		}
@@ -90,13 +106,13 @@ func wholeInput1(v ssa.Value, param *ssa.Parameter, xf *inputXform, seen map[ssa
 		// "v" + s: a literal put in front of the input
 		if x.Op == token.ADD {
 			if c, ok := constString(x.X); ok {
-				return wholeInput1(x.Y, param, xf, seen, prefix+c)
+				return wholeInput1(p, x.Y, param, xf, seen, prefix+c)
 			}
 		}
 	case *ssa.Slice:
 		// s[k:]: a stripped prefix
 		if x.High == nil {
-			return wholeInput1(x.X, param, xf, seen, prefix)
+			return wholeInput1(p, x.X, param, xf, seen, prefix)
 		}
 	}
 	return false
@@ -185,7 +201,7 @@ func (p *Prog) gatePatterns(fn *ssa.Function, param *ssa.Parameter, depth int, u
 			}
 			if regexGateMethods[extName(f)] && len(call.Call.Args) >= 2 {
 				xf := &inputXform{}
-				if !wholeInput(call.Call.Args[1], param, xf, map[ssa.Value]bool{}) {
+				if !wholeInput(p, call.Call.Args[1], param, xf, map[ssa.Value]bool{}) {
 					continue
 				}
 				ris := p.regexSetOf(call.Call.Args[0])
@@ -203,7 +219,7 @@ func (p *Prog) gatePatterns(fn *ssa.Function, param *ssa.Parameter, depth int, u
 			}
 			for i, a := range call.Call.Args {
 				xf := &inputXform{}
-				if i < len(f.Params) && isStringType(a.Type()) && wholeInput(a, param, xf, map[ssa.Value]bool{}) {
+				if i < len(f.Params) && isStringType(a.Type()) && wholeInput(p, a, param, xf, map[ssa.Value]bool{}) {
 					for _, g := range p.gatePatterns(f, f.Params[i], depth+1, unresolved) {
 						g.fold = g.fold || xf.fold
 						var pf []string
